@@ -301,6 +301,14 @@ class _DropAnn(ast.NodeTransformer):
 
     def visit_Assign(self, n):
         self.generic_visit(n)
+        # label = "a" if c else "b"   ->   if c: label = "a"  else: label = "b"      (two constant texts chosen by a test)
+        if self.depth > 0 and len(n.targets) == 1 and isinstance(n.targets[0], ast.Name) and isinstance(n.value, ast.IfExp) \
+                and all(isinstance(x, ast.Constant) and isinstance(x.value, str) for x in (n.value.body, n.value.orelse)):
+            import copy as _copy
+            a = ast.copy_location(ast.Assign([_copy.deepcopy(n.targets[0])], n.value.body), n)
+            b = ast.copy_location(ast.Assign([_copy.deepcopy(n.targets[0])], n.value.orelse), n)
+            new = ast.copy_location(ast.If(n.value.test, [a], [b]), n)
+            return new
         # X = {e for a in A for b in B ..}  ->  X = set(); for a in A: for b in B: .. X.add(e)    (several generators)
         if self.depth > 0 and len(n.targets) == 1 and isinstance(n.targets[0], ast.Name) \
                 and isinstance(n.value, (ast.SetComp, ast.ListComp)) and len(n.value.generators) >= 2 \
@@ -339,6 +347,16 @@ class _DropAnn(ast.NodeTransformer):
             r = _containment_from_quantifier(n)
             if r is not None:
                 return r
+            # A.issubset(B)  ->  all(e in B for e in A)        B.issuperset(A) likewise
+            if isinstance(n.func, ast.Attribute) and n.func.attr in ("issubset", "issuperset") and len(n.args) == 1 and not n.keywords:
+                A, B = (n.func.value, n.args[0]) if n.func.attr == "issubset" else (n.args[0], n.func.value)
+                self.qv = getattr(self, "qv", 0) + 1
+                v = f"_e{self.qv}"
+                g = ast.comprehension(ast.Name(v, ast.Store()), A, [], 0)
+                out = ast.Call(ast.Name("all", ast.Load()), [ast.GeneratorExp(ast.Compare(ast.Name(v, ast.Load()), [ast.In()], [B]), [g])], [])
+                for y in ast.walk(out):
+                    ast.copy_location(y, n)
+                return out
         return n
 
     def visit_Dict(self, n):
@@ -473,6 +491,7 @@ def _drop_local_annotations(tree: ast.Module) -> None:
     for x in ast.walk(tree):
         if isinstance(x, ast.FunctionDef):
             _flatten_chains(x)
+            _drop_length_shadows(x)
             _inline_flag_locals(x)
             memo.dissolve(x)
 
@@ -583,6 +602,35 @@ def _inline_flag_locals(fn: ast.FunctionDef) -> int:
             for h in getattr(st, "handlers", []) or []:
                 block(h.body)
     block(fn.body)
+    if count:
+        # a named condition that is no longer read anywhere is gone
+        loads = {y.id for y in ast.walk(fn) if isinstance(y, ast.Name) and isinstance(y.ctx, ast.Load)}
+
+        def prune(body: list) -> None:
+            for k, st in enumerate(body):
+                if isinstance(st, ast.Assign) and len(st.targets) == 1 and isinstance(st.targets[0], ast.Name) \
+                        and st.targets[0].id not in loads and stores.get(st.targets[0].id) == 1 \
+                        and st.targets[0].id not in params and st.targets[0].id not in nested_names and _pure_flag_expr(st.value):
+                    body[k] = ast.copy_location(ast.Pass(), st)
+                for fld in ("body", "orelse", "finalbody"):
+                    sub = getattr(st, fld, None)
+                    if isinstance(sub, list) and sub and isinstance(sub[0], ast.stmt) and not isinstance(st, (ast.FunctionDef, ast.ClassDef)):
+                        prune(sub)
+                for h in getattr(st, "handlers", []) or []:
+                    prune(h.body)
+        prune(fn.body)
+        # `pass` among other statements says nothing
+        def squeeze(body: list) -> None:
+            if len(body) > 1:
+                body[:] = [st for st in body if not isinstance(st, ast.Pass)] or [body[0]]
+            for st in body:
+                for fld in ("body", "orelse", "finalbody"):
+                    sub = getattr(st, fld, None)
+                    if isinstance(sub, list) and sub and isinstance(sub[0], ast.stmt) and not isinstance(st, (ast.FunctionDef, ast.ClassDef)):
+                        squeeze(sub)
+                for h in getattr(st, "handlers", []) or []:
+                    squeeze(h.body)
+        squeeze(fn.body)
     return count
 
 
@@ -742,6 +790,123 @@ def _worklist_to_recursion(fn: ast.FunctionDef, in_class: bool) -> bool:
     fn.body = body[:i] + new_rest
     ast.fix_missing_locations(fn)
     return True
+
+
+def _drop_length_shadows(fn: ast.FunctionDef) -> int:
+    """A local that is kept equal to `len(X)` -- set from `len(X)` only, and again right after every re-binding of X, X
+    never changed in place -- is read as `len(X)`."""
+    own: list[ast.AST] = []
+    stack: list[ast.AST] = list(fn.body)
+    while stack:
+        n = stack.pop()
+        own.append(n)
+        for c in ast.iter_child_nodes(n):
+            if isinstance(c, (ast.FunctionDef, ast.Lambda, ast.ClassDef)):
+                if any(isinstance(y, (ast.Nonlocal, ast.Global)) for y in ast.walk(c)):
+                    return 0
+                continue
+            stack.append(c)
+    params = {a.arg for a in fn.args.posonlyargs + fn.args.args + fn.args.kwonlyargs}
+    cands: dict[str, str] = {}
+    bad: set[str] = set()
+    for n in own:
+        if isinstance(n, ast.Name) and isinstance(n.ctx, (ast.Store, ast.Del)):
+            pass
+    assigns: dict[str, list[ast.Assign]] = {}
+    other_stores: set[str] = set()
+    for n in own:
+        if isinstance(n, ast.Assign) and len(n.targets) == 1 and isinstance(n.targets[0], ast.Name):
+            assigns.setdefault(n.targets[0].id, []).append(n)
+    plain = {id(t) for lst in assigns.values() for a in lst for t in a.targets}
+    for n in own:
+        if isinstance(n, ast.Name) and isinstance(n.ctx, (ast.Store, ast.Del)) and id(n) not in plain:
+            other_stores.add(n.id)
+    for S, lst in assigns.items():
+        if S in params or S in other_stores:
+            continue
+        xs = set()
+        for a in lst:
+            v = a.value
+            if isinstance(v, ast.Call) and isinstance(v.func, ast.Name) and v.func.id == "len" and len(v.args) == 1 \
+                    and isinstance(v.args[0], ast.Name) and not v.keywords:
+                xs.add(v.args[0].id)
+            else:
+                xs.add("")
+        if len(xs) == 1 and "" not in xs and len(lst) >= 2:
+            cands[S] = xs.pop()
+    count = 0
+    for S, X in cands.items():
+        if X in other_stores or X == S:
+            continue
+        # X is not changed in place
+        if any(isinstance(n, ast.Call) and isinstance(n.func, ast.Attribute) and isinstance(n.func.value, ast.Name)
+               and n.func.value.id == X and n.func.attr in _MUTATORS for n in own) or \
+                any(isinstance(n, ast.Subscript) and isinstance(n.ctx, (ast.Store, ast.Del)) and isinstance(n.value, ast.Name)
+                    and n.value.id == X for n in own) or \
+                any(isinstance(n, ast.AugAssign) and isinstance(n.target, ast.Name) and n.target.id == X for n in own):
+            continue
+        sdefs = assigns[S]
+        first = next((st for st in fn.body if st in sdefs), None)
+        if first is None:
+            continue
+        k0 = fn.body.index(first)
+        xdefs = assigns.get(X, [])
+        if X not in params and not any(st in xdefs for st in fn.body[:k0]):
+            continue
+        # X stores before the first S def are all at top level before it; the others are followed by the refresh
+        ok = True
+        pending = [d for d in xdefs if d not in fn.body[:k0]]
+        early_nested = [d for st in fn.body[:k0] for d in ast.walk(st) if d in xdefs and d is not st]
+        if early_nested:
+            continue
+
+        def followed(body: list) -> None:
+            nonlocal ok
+            for i, st in enumerate(body):
+                if st in pending:
+                    good = False
+                    for nxt in body[i + 1:]:
+                        if nxt in sdefs:
+                            good = True
+                            break
+                        if not isinstance(nxt, (ast.Assign, ast.Expr)) or any(isinstance(y, ast.Name) and y.id in (S, X) for y in ast.walk(nxt)):
+                            break
+                    if not good:
+                        ok = False
+                for fld in ("body", "orelse", "finalbody"):
+                    sub = getattr(st, fld, None)
+                    if isinstance(sub, list) and sub and isinstance(sub[0], ast.stmt) and not isinstance(st, (ast.FunctionDef, ast.ClassDef)):
+                        followed(sub)
+                for h in getattr(st, "handlers", []) or []:
+                    followed(h.body)
+        followed(fn.body)
+        if not ok:
+            continue
+
+        class R(ast.NodeTransformer):
+            def visit_FunctionDef(self, n):
+                return n if n is not fn else self.generic_visit(n)
+
+            def visit_Lambda(self, n):
+                return n
+
+            def visit_Assign(self, n):
+                if n in sdefs:
+                    return ast.copy_location(ast.Pass(), n)
+                return self.generic_visit(n)
+
+            def visit_Name(self, n):
+                if n.id == S and isinstance(n.ctx, ast.Load):
+                    c = ast.Call(ast.Name("len", ast.Load()), [ast.Name(X, ast.Load())], [])
+                    for y in ast.walk(c):
+                        ast.copy_location(y, n)
+                    return c
+                return n
+        R().visit(fn)
+        count += 1
+    if count:
+        ast.fix_missing_locations(fn)
+    return count
 
 
 def _is_chain_from_iterable(e: ast.AST) -> ast.expr | None:
